@@ -158,7 +158,8 @@ def judge_directory(nfiles, opts):
             ["CvrExport_2.json", "CvrExport_1.json", "other.json"][: nfiles + 1]
         specs = {}
         for j, nm in enumerate(names):
-            spec = [(20 + j, 1, 5 + i, 1 + (i + j) % 2, [("Original", [("c1", VARIANTS["a" if (i + j) % 2 else "c"])], "flat")]) for i in range(2)]
+            spec = [(20 + j, 1, 5 + i, 1 + (i + j) % 2, [("Original", [("c1", VARIANTS["d" if (i + j) % 2 else "c"])], "flat"),
+                                                          ("Modified", [("c1", VARIANTS["b"])], "flat")][: 1 + (i % 2)]) for i in range(2)]
             specs[nm] = spec
             with open(os.path.join(d, nm), "w") as f:
                 json.dump({"Sessions": [session(*s_) for s_ in spec]}, f)
@@ -245,9 +246,9 @@ def run_shard(sh, rec):
                 break
     elif sh[0] == "D":
         for nfiles in (1, 2, 3):
-            for ig in ([], [1], [2]):
-                for pg in ([], [2]):
-                    opts = O(include_groups=ig, pool_groups=pg)
+            for ig, pg, uc, er in itertools.product(([], [1], [2]), ([], [2]), (True, False), (True, False)):
+                if True:
+                    opts = O(include_groups=ig, pool_groups=pg, use_current=uc, enforce_rules=er)
                     v = judge_directory(nfiles, opts)
                     rec.state()
                     rec.trans()
